@@ -16,4 +16,6 @@ echo "rc=$rc"
 grep -E "^(VIOLATION|SUMMARY|HARNESS|BUILD)" /tmp/try_seeded_wt.out | head -6
 grep -A1 "^VIOLATION" /tmp/try_seeded_wt.out | grep -v "^VIOLATION\|^--" | cut -c1-260 | sort | uniq -c | sort -rn | head -4
 find /verif/replays -name "$prop-*.json" -mmin -30 -delete 2>/dev/null
+# a seeded change may put its temporary files elsewhere (w11-C15: os.TempDir())
+find /tmp -maxdepth 1 -name 'result.csv.*.tmp' -delete 2>/dev/null
 exit 0
